@@ -69,9 +69,15 @@ def apply_mode(top, mode, rng):
     raise KeyError(mode)
 
 
+class BoundExceeded(Exception):
+  """raised from the monitoring callback into the running evaluation: a block ran more often than the logical bound"""
+
+
 class Tracer:
-  def __init__(self, top, on_start=None):
+  def __init__(self, top, on_start=None, limit=None):
     self.top = top
+    self.limit = limit
+    self.counts = {}
     self.events = []
     self.on_start = on_start
     self.codes = {}
@@ -92,11 +98,17 @@ class Tracer:
     s = sys._getframe(1).f_locals.get("s")
     key = (repr(s) if s is not None and hasattr(s, "_dsl") else "", code.co_name, kind)
     self.events.append(key)
+    if self.limit is not None:
+      n = self.counts[key] = self.counts.get(key, 0) + 1
+      if n > self.limit:
+        self.counts.clear()
+        raise BoundExceeded(f"{key} started {n} times in one evaluation")
     if self.on_start is not None:
       self.on_start(key)
 
   def take(self):
     ev, self.events = self.events, []
+    self.counts.clear()
     return ev
 
   def close(self):
